@@ -372,6 +372,10 @@ def _show(data):
     return hx
 
 
+_REUSED = None
+_PREV_DATA = None
+
+
 def identify(data):
     """Run the real function.  Returns (answer or None, exception or None, file object)."""
     from TotalDepth.util import bin_file_type
@@ -433,6 +437,25 @@ def check_bytes(data, expected=None, fmt=None):
                     os.remove(path)
                 except OSError:
                     pass
+            # ... and through ONE stream object that the caller refills for every file (the same object, other content): an
+            # answer remembered per object rather than per content shows up, whatever the allocator does with fresh objects
+            global _REUSED, _PREV_DATA
+            if _REUSED is None:
+                _REUSED = io.BytesIO()
+            by_obj = None
+            for blob in ((_PREV_DATA, data) if _PREV_DATA is not None else (data,)):     # the previous file's bytes, then this file's, back to back
+                _REUSED.seek(0)
+                _REUSED.truncate()
+                _REUSED.write(blob)
+                _REUSED.seek(0)
+                try:
+                    by_obj = bin_file_type.binary_file_type(_REUSED)
+                except Exception as err:  # noqa
+                    by_obj = 'raised %s' % type(err).__name__
+            _PREV_DATA = data
+            if by_obj != got:
+                bad.append(({'kind': 'reused_stream_object_differs', 'format': fmt or expected},
+                            'binary_file_type() on a refilled stream object answers %r, on a fresh one %r' % (by_obj, got)))
             if by_path != got:
                 bad.append(({'kind': 'path_entry_point_differs', 'format': fmt or expected},
                             'binary_file_type_from_path() answers %r, binary_file_type() on the same bytes %r' % (by_path, got)))
